@@ -145,9 +145,9 @@ CHECKS = {
     ),
     "C17": dict(
         level="fault_enumeration",
-        required_probes=['round_trip_fixed_point', 'damaged_text_accepted_consistent', 'damaged_text_rejected', 'damaged_header_rejected', 'damaged_header_accepted_consistent', 'non_default_object_round_trip', 'keyparser_rules_checked', 'case_whitespace_variant_checked', 'siemens_sinogram_header_checked', 'spect_header_checked', 'listmode_header_checked', 'multi_header_checked', 'siemens_tof_sinogram_header_checked', 'keyword_with_tab_between_words'],
+        required_probes=['round_trip_fixed_point', 'damaged_text_accepted_consistent', 'damaged_text_rejected', 'damaged_header_rejected', 'damaged_header_accepted_consistent', 'non_default_object_round_trip', 'keyparser_rules_checked', 'case_whitespace_variant_checked', 'siemens_sinogram_header_checked', 'spect_header_checked', 'listmode_header_checked', 'multi_header_checked', 'siemens_tof_sinogram_header_checked', 'keyword_with_tab_between_words', 'parametric_header_checked'],
         parts=[dict(harness="chk_C17", variant="seq", src="checks/chk_C17.cpp", extra_rt=["simalloc"],
-                    runs=dict(quick=1088, thorough=68000), wall_cap=dict(quick=220, thorough=2400))],
+                    runs=dict(quick=1216, thorough=76000), wall_cap=dict(quick=240, thorough=2400))],
         rule=("one case = one text or header and one fault class whose positions are enumerated completely: (registry) the parameter "
               "text a default-constructed object of each registered class of 10 registries prints for itself (object made through the "
               "registry's ask_parameters path in a guarded child process) -> round trip fixed point, case/white-space variants, end of "
@@ -157,7 +157,7 @@ CHECKS = {
               "(interfile) image and projection-data headers written by the library, and in half of the projection-data cases a vendor "
               "flavour (Siemens sinogram sub-header of the mMR with a small data file, Interfile 3.3 SPECT header) -> truncated at every byte, "
               "one flipped bit at every byte, every line lost / duplicated, list-valued lines with an entry lost / gained, every vectorised "
-              "index damaged, every integer value n replaced by 0 / -1 / 1 / 2n / n+1, data file shorter / longer; (interfile_lm) the Siemens list-mode header of a small PETLINK 32-bit file through "
+              "index damaged, every integer value n replaced by 0 / -1 / 1 / 2n / n+1, every value replaced by a 1100-character word, data file shorter / longer; (interfile_lm) the Siemens list-mode header of a small PETLINK 32-bit file through "
               "CListModeDataECAT8_32bit, every record fetched and mapped to a bin after an accepted header; (multi) the Multi header of a "
               "dynamic data set: an accepted header has a name for every data set it announces.  "
               "Non-trivial: every case; distinct = event-log hash."),
